@@ -177,6 +177,8 @@ def build_witness(seed, d):
         sf = sigfields(seed, fs, ch)
         fn = {'single': T.make_single_sig_witness, 'single2': T.make_single_sig_witness2,
               'graftroot-key': T.make_graftroot_witness_keyspend, 'graftap-key': T.make_graftap_witness_keyspend}[d[0]]
+        # history: the same holder signed other contents under the same field names and flags just before
+        fn(sk[k], {n: v + b'-earlier' for n, v in sf.items()}, fl)
         r = fn(sk[k], sf, fl).bytes
     elif d[0] == 'multi2':
         r = b''.join(T.make_single_sig_witness(sk[k], sigfields(seed, (1, 2)), fl).bytes for k, fl in d[1])
@@ -185,20 +187,25 @@ def build_witness(seed, d):
         r = b''.join(T.make_single_sig_witness(sk[k], sigfields(seed, fs, ch), fl).bytes for k in ks)
     else:
         inner = b''
+        # history: the same builder was used for another script (same key) just before
+        other = 'true' if d[1 if d[0] == 'scripthash' else 2] != 'true' else 'two'
         if d[0] == 'scripthash':
             _, s, ik = d
             if ik:
                 inner = T.make_single_sig_witness(sk[ik], base_sf, '00').bytes
+            T.make_scripthash_witness(sc[other]).bytes
             r = inner + T.make_scripthash_witness(sc[s]).bytes
         elif d[0] == 'graftroot-surrogate':
             _, k, s, ik = d
             if ik:
                 inner = T.make_single_sig_witness(sk[ik], base_sf, '00').bytes
+            T.make_graftroot_witness_surrogate(sk[k], sc[other])
             r = inner + T.make_graftroot_witness_surrogate(sk[k], sc[s]).bytes
         elif d[0] == 'graftap-script':
             _, k, s, ik = d
             if ik:
                 inner = T.make_single_sig_witness(sk[ik], base_sf, '00').bytes
+            T.make_graftap_witness_scriptspend(sk[k], sc[other])
             r = inner + T.make_graftap_witness_scriptspend(sk[k], sc[s]).bytes
     _WITS[key] = r
     return r
